@@ -27,6 +27,17 @@ def MIN_HIGH_PRIORITY_BITS : Nat := 4722999750989709312
 def LOCKTIME_THRESHOLD : Nat := 500000000
 def BASE_SUBSIDY : Nat := 5000000000
 def U32 : Nat := 4294967296
+/-- `btcutil.MaxSatoshi` = 21e6 BTC. -/
+def MAX_SATOSHI : Nat := 2100000000000000
+/-- `MaxTimeOffsetSeconds`: a block may be at most two hours ahead of the node's clock. -/
+def MAX_TIME_OFFSET : Int := 7200
+/-- BIP68: `SequenceLockTimeDisabled` (bit 31), `SequenceLockTimeIsSeconds` (bit 22), the 16-bit mask and
+the 512-second granularity of time-based relative locks. -/
+def SEQ_DISABLED : Nat := 2147483648
+def SEQ_IS_SECONDS : Nat := 4194304
+def SEQ_MASK : Nat := 65536
+def SEQ_GRANULARITY : Nat := 512
+def MAX_SEQUENCE : Nat := 4294967295
 
 /-- Weight the witness commitment adds to a coinbase: one more output (8-byte value, 1-byte script
 length, 38-byte script, all non-witness ⇒ ×4) plus marker, flag, witness item count, item length and
@@ -51,12 +62,16 @@ structure ChainUtxo where
   value : Nat
   height : Int
   coinbase : Bool
+  /-- past median time of the block BEFORE the one that holds the output (BIP68 time locks) -/
+  mtpPrev : Int := 0
   deriving DecidableEq, Repr, Inhabited
 
 structure Inp where
   op : OutPoint
   /-- what the chain's utxo set says about `op` when the template is built -/
   chain : Option ChainUtxo
+  /-- `TxIn.Sequence` -/
+  sequence : Nat := 4294967295
   deriving DecidableEq, Repr, Inhabited
 
 structure Out where
@@ -79,6 +94,8 @@ structure Tx where
   sigCost : Nat
   hasWitness : Bool
   scriptsOk : Bool
+  /-- `MsgTx.Version` (BIP68 applies from version 2) -/
+  version : Nat := 1
   deriving Repr, Inhabited
 
 structure Env where
@@ -177,8 +194,8 @@ def spendTx (v : View) (j : Nat) (t : Tx) (height : Int) : View :=
 
 def allAvail (v : View) (t : Tx) : Bool := t.ins.all (fun i => v.avail i.op)
 
-/-- `blockchain.CheckTransactionInputs` (existence, coinbase maturity, inputs cover outputs). Amount
-range checks are not modelled (assumption: amounts are within range). -/
+/-- `blockchain.CheckTransactionInputs` (existence, coinbase maturity, amount ranges, inputs cover
+outputs). -/
 def checkInputsAux (v : View) (height maturity : Int) : List Inp → Nat → Option Nat
   | [], acc => some acc
   | i :: rest, acc =>
@@ -186,6 +203,8 @@ def checkInputsAux (v : View) (height maturity : Int) : List Inp → Nat → Opt
     | some e =>
       if e.spent then none
       else if e.coinbase && decide (height - e.height < maturity) then none
+      else if e.value > MAX_SATOSHI then none
+      else if acc + e.value > MAX_SATOSHI then none
       else checkInputsAux v height maturity rest (acc + e.value)
     | none => none
 
